@@ -96,12 +96,23 @@ type c16world struct {
 	memb    map[string][]c16memb      // "clientID/room" -> join/leave events
 	bcasts  map[string]*c16bcast      // unique payload -> broadcast
 	gone    map[string]uint64         // server connection ID -> stamp at which the hub ran its disconnect handlers
+	marks   map[string]c16mark        // unique payload -> marker sent after a completed leave
 	sample  []string
 	nuniq   int
 	faultsDone bool
 }
 
 var c16rooms = []string{"r1", "r2", "r3", "r4"}
+
+// c16oddRooms: look-alike names (padding, case, a tab) next to the plain ones
+var c16oddRooms = []string{"r1", "r1 ", " r1", "R1", "r2", "r2\t"}
+
+// c16mark: a marker queued for a connection (Send) right after an API-level LeaveRoom returned
+type c16mark struct {
+	client    int
+	room      string
+	leaveCall uint64
+}
 
 func (w *c16world) logf(format string, a ...any) {
 	if len(w.sample) < 90 {
@@ -246,7 +257,7 @@ func c16Run(s *sim.Sim, p *sim.Params) {
 		s.Probe("silent-peer-run")
 	}
 	hub := NewHubWithConfig(cfg)
-	w := &c16world{s: s, cfg: cfg, srv: &Server{hub: hub, upgrader: newUpgrader(cfg)}, byID: map[string]*c16client{}, memb: map[string][]c16memb{}, bcasts: map[string]*c16bcast{}, gone: map[string]uint64{}}
+	w := &c16world{s: s, cfg: cfg, srv: &Server{hub: hub, upgrader: newUpgrader(cfg)}, byID: map[string]*c16client{}, memb: map[string][]c16memb{}, bcasts: map[string]*c16bcast{}, gone: map[string]uint64{}, marks: map[string]c16mark{}}
 	defer func() { s.Note("sample", w.sample) }()
 	w.logf("config hubMax=%d roomMax=%d queue=%d/%s heartbeat=%v reconnection=%v", cfg.MaxConnectionsPerHub, cfg.MaxConnectionsPerRoom, cfg.MessageQueueSize, cfg.MessageQueueStrategy, cfg.EnableHeartbeat, cfg.EnableReconnection)
 	handlersOnHub := s.Choose(sim.SWork, 3) != 0
@@ -322,6 +333,11 @@ func c16Run(s *sim.Sim, p *sim.Params) {
 	if hotRoom {
 		rooms = c16rooms[:1]
 		s.Probe("hot-room-run")
+	} else if s.Choose(sim.SWork, 4) == 0 {
+		// room names are opaque strings: names that differ only in padding or case are different
+		// rooms, in the rooms' view and in every connection's own view alike
+		rooms = c16oddRooms
+		s.Probe("odd-room-names-run")
 	}
 	// "sparse room" runs: two connections, one room without a seat limit, and only actors join and
 	// leave it — the room keeps becoming empty while the other connection is joining it
@@ -523,6 +539,9 @@ func c16Run(s *sim.Sim, p *sim.Params) {
 				o.kind = "api-close"
 			case r < 10:
 				o.kind = "hub-broadcast-room"
+				if s.Choose(sim.SWork, 3) == 0 {
+					o.kind = "rm-broadcast-room"
+				}
 			case r < 11:
 				o.kind = "hub-broadcast"
 			case r < 12:
@@ -561,7 +580,19 @@ func c16Run(s *sim.Sim, p *sim.Params) {
 						call := s.Stamp()
 						conn.LeaveRoom(o.room)
 						w.noteMemb(cl.id, o.room, "leave", call, s.Stamp())
+						if o.pick%2 == 0 {
+							// a marker queued behind whatever the room had already queued for it
+							u := w.uniq("mk")
+							w.marks[u] = c16mark{client: cl.id, room: o.room, leaveCall: call}
+							conn.Send([]byte(fmt.Sprintf(`{"type":"json","u":%q,"mark":true}`, u)))
+							s.Probe("marker-after-leave")
+						}
 					}
+				case "rm-broadcast-room":
+					// the room manager's own synchronous broadcast, as a route handler may call it
+					u := w.uniq("s")
+					w.bcasts[u] = &c16bcast{u: u, room: o.room, call: s.Stamp(), exclude: -1}
+					hub.GetRoomManager().BroadcastToRoom(o.room, []byte(fmt.Sprintf(`{"type":"json","room":%q,"u":%q}`, o.room, u)), nil)
 				case "api-send":
 					if conn != nil {
 						conn.Send([]byte(`{"type":"json","data":{"note":"api"}}`))
@@ -591,7 +622,7 @@ func c16Run(s *sim.Sim, p *sim.Params) {
 					if conn != nil && cl != nil && len(w.conns) > 1 {
 						old := w.conns[(o.pick+1)%len(w.conns)]
 						// rooms restored from a saved state count as joins from now on
-						for _, r := range c16rooms {
+						for _, r := range rooms {
 							w.noteMemb(cl.id, r, "join", s.Stamp(), 0)
 						}
 						hub.RestoreConnectionState(conn, old.ID)
@@ -713,10 +744,36 @@ func (w *c16world) checkDelivery() {
 		}
 	}
 	for _, c := range w.clients {
+		var seen []c16mark // markers this client has observed so far, in arrival order
 		for _, o := range c.obs {
+			if mk, ok := w.marks[o.u]; ok && o.u != "" && mk.client == c.id {
+				seen = append(seen, mk)
+				s.Probe("marker-observed")
+				continue
+			}
 			b := w.bcasts[o.u]
 			if o.u == "" || b == nil {
 				continue
+			}
+			// a connection's queue is first-in first-out: whatever a room queued for a member was
+			// queued before that member's LeaveRoom returned, so it arrives before a marker
+			// queued after the return — a room message behind the marker was handed to a
+			// connection that was no longer a member
+			if b.room != "" {
+				for _, mk := range seen {
+					if mk.room != b.room {
+						continue
+					}
+					rejoined := false
+					for _, j := range w.memb[fmt.Sprintf("%d/%s", c.id, b.room)] {
+						if j.kind == "join" && j.call < o.at && (j.ret == 0 || j.ret > mk.leaveCall) {
+							rejoined = true
+						}
+					}
+					if !rejoined {
+						s.Fail("oracle", "delivered-after-leave", fmt.Sprintf("client %d observed room message %s for room %q behind the marker that was queued for it after its LeaveRoom(%q) had returned, and it did not rejoin: the message was queued for a connection that had left the room", c.id, o.u, b.room, b.room))
+					}
+				}
 			}
 			// nothing is delivered to a connection after its disconnect completed: a message whose
 			// broadcast was invoked after the hub had finished unregistering the connection
